@@ -10,6 +10,7 @@ import Compress.Proofs.MetaLocate
 import Compress.Proofs.MetaSilent
 import Compress.Proofs.MetaConvStream
 import Compress.Proofs.MetaConvExample
+import Compress.Proofs.MetaRApiExact
 
 namespace Compress.Props.C16
 open Compress Compress.Meta
@@ -122,5 +123,41 @@ example : decodeBlock (Bits.ofBytes [4, 0, 135, 5, 0, 0, 200, 255, 223, 182, 247
 
 -- non-vacuity: a footer payload really is encodable, as a single block, and decodes back
 example : (encode [0x58, 0x46, 0x00, 0x0a] .fstream).isSome = true := by decide
+
+/-! ### meta.Reader as an object (API-level model `Meta/ReaderApi.lean`) -/
+
+section metaReader
+open Compress.Proofs.MetaRApi
+
+/-- **Schedule independence: the Reader delivers `decode`'s payload.** For every source (any
+    bytes, any fault; `src.avail` = the bytes it hands out) and every Read schedule (any buffer
+    lengths, zero included): a run that has reached io.EOF has delivered, call by call,
+    exactly the payload of `Codec.decode` on the input, and FinalMode is `decode`'s; a run
+    that ended with io.ErrUnexpectedEOF / a Corrupted error did so because `decode` fails in
+    that way; and a run that ended with the source's own error did so on an input that is cut
+    inside a block or has no final block yet.  So all the C16 theorems about `decode` (round
+    trip, silence in DEFLATE) hold for what the Reader object returns. -/
+theorem C16_meta_reader_delivers_decode (src : Src) (ns : List Nat) :
+    let r := MR.run (newMR src) (ns.map .read)
+    (r.1.err = some .eof → ∃ d, decode src.avail = .ok d ∧ dataOf r.2 = d.payload ∧ r.1.finalMode = d.final) ∧
+    (r.1.err = some .ueof → decode src.avail = .error .unexpectedEOF) ∧
+    (r.1.err = some .corrupt → ∃ w, decode src.avail = .error (.corrupted w)) ∧
+    (∀ t, r.1.err = some (.fault t) → decode src.avail = .error .unexpectedEOF ∨
+      ∃ d, decode src.avail = .ok d ∧ d.final = .fnil) :=
+  Compress.Proofs.MetaRApi.delivers_decode src ns
+
+/-- **Writer to Reader.** What the encoder writes for any payload and final mode, read back
+    through the Reader object with any Read schedule: never an error other than io.EOF, and
+    at io.EOF the Reads have delivered the payload, FinalMode is the writer's, InputOffset is
+    the length of the stream, NumBlocks the number of blocks written, nothing is left. -/
+theorem C16_meta_reader_roundtrip (payload : List UInt8) (final : FinalMode) (ns : List Nat) :
+    ∃ blocks, encode payload final = some blocks ∧
+      let r := MR.run (newMR { data := blocks.flatten }) (ns.map .read)
+      (r.1.err ≠ some .ueof ∧ r.1.err ≠ some .corrupt) ∧
+      (r.1.err = some .eof → dataOf r.2 = payload ∧ r.1.finalMode = final ∧ r.1.inOff = blocks.flatten.length ∧
+        r.1.nblk = blocks.length ∧ r.1.rest = [] ∧ r.1.outOff = payload.length) :=
+  Compress.Proofs.MetaRApi.reads_encoded payload final ns
+
+end metaReader
 
 end Compress.Props.C16
